@@ -70,6 +70,24 @@ theorem cutChar_no (d : Char) (a : Str) (h : d ∉ a) : cutChar d a = (a, none) 
     have ha : d ∉ a := fun e => h (List.mem_cons_of_mem _ e)
     simp [cutChar, hc, ih ha]
 
+/-- `cutChar` finds the delimiter whenever it occurs -/
+theorem cutChar_some_of_mem (d : Char) (s : Str) (h : d ∈ s) : ∃ a b, cutChar d s = (a, some b) := by
+  induction s with
+  | nil => simp at h
+  | cons c s ih =>
+    by_cases hc : c = d
+    · exact ⟨[], s, by simp [cutChar, hc]⟩
+    · have hm : d ∈ s := by
+        rcases List.mem_cons.mp h with e | e
+        · exact absurd e.symm hc
+        · exact e
+      obtain ⟨a, b, hab⟩ := ih hm
+      exact ⟨c :: a, b, by simp [cutChar, hc, hab]⟩
+
+theorem cutChar_cons_ne (d c : Char) (s : Str) (h : c ≠ d) :
+    cutChar d (c :: s) = (c :: (cutChar d s).1, (cutChar d s).2) := by
+  simp [cutChar, h]
+
 /-- every piece of a split is free of the delimiter -/
 theorem not_mem_of_mem_splitOnChar (d : Char) (s : Str) : ∀ x ∈ splitOnChar d s, d ∉ x := by
   induction s with
